@@ -30,7 +30,25 @@ fn make_units(rng: &mut Rng, k: usize) -> Vec<Unit> {
         // some evaluators are identical twins of an earlier one
         if i > 0 && rng.chance(1, 4) {
             let j = rng.usize_below(i);
-            let u = Unit { case: v[j].case.clone(), ranges: v[j].ranges.clone(), cfg: v[j].cfg.clone(), scope: v[j].scope };
+            let ranges = if rng.chance(1, 2) {
+                v[j].ranges.clone()
+            } else {
+                // equal ranges (==) built in another insertion order: a different listing order of the same combos
+                v[j].case
+                    .ranges
+                    .iter()
+                    .map(|r| {
+                        let mut items = r.clone();
+                        rng.shuffle(&mut items);
+                        // extra capacity history: insert and overwrite
+                        let mut doubled = items.clone();
+                        doubled.extend(items.iter().cloned());
+                        crate::conv::to_hand_range(&doubled)
+                    })
+                    .collect()
+            };
+            let scope = if rng.chance(3, 4) { v[j].scope } else { ((0, 1), (3, 4)) };
+            let u = Unit { case: v[j].case.clone(), ranges, cfg: v[j].cfg.clone(), scope };
             v.push(u);
             continue;
         }
@@ -81,13 +99,28 @@ fn run_schedule(seed: u64, index: u64, report: &mut Report) {
         .map(|u| catch(|| drive::evaluator(&u.cfg, &u.ranges, Some(u.scope)).into_iter().map(|sd| trace_key(&sd)).collect()))
         .collect();
     let mut schedule_hash = 0u64;
+    let mut abandoned = 0u64;
     let result = catch(|| {
+        // iterators that are started and dropped midway before the real ones are built
+        if rng.chance(1, 2) {
+            for _ in 0..1 + rng.usize_below(3) {
+                let u = &units[rng.usize_below(k)];
+                let mut it = drive::evaluator(&u.cfg, &u.ranges, Some(u.scope)).into_iter();
+                for _ in 0..1 + rng.usize_below(40) {
+                    if it.next().is_none() {
+                        break;
+                    }
+                }
+                abandoned += 1;
+            }
+        }
         let mut its: Vec<_> = units.iter().map(|u| drive::evaluator(&u.cfg, &u.ranges, Some(u.scope)).into_iter()).collect();
         let mut seqs: Vec<Vec<TraceKey>> = vec![Vec::new(); k];
         let mut live: Vec<usize> = (0..k).collect();
         let starved = rng.usize_below(k);
         let mut cursor = 0usize;
         let mut steps = 0u64;
+        let mut restarts = 0u32;
         while !live.is_empty() {
             let (pick, burst) = match kind {
                 0 => {
@@ -107,6 +140,13 @@ fn run_schedule(seed: u64, index: u64, report: &mut Report) {
             };
             let e = live[pick];
             let mut done = false;
+            if (kind == 2 || kind == 4) && restarts < 2 && rng.chance(1, 150) {
+                restarts += 1;
+                // give up on this evaluator midway and start it again from scratch
+                its[e] = drive::evaluator(&units[e].cfg, &units[e].ranges, Some(units[e].scope)).into_iter();
+                seqs[e].clear();
+                abandoned += 1;
+            }
             for _ in 0..burst {
                 steps += 1;
                 schedule_hash = mix2(schedule_hash, e as u64);
@@ -145,6 +185,7 @@ fn run_schedule(seed: u64, index: u64, report: &mut Report) {
     match result {
         Err(p) => report.violate(format!("schedule:{}:{}:panic", seed, index), format!("interleaving {} evaluators ({}) panicked: {}", k, schedule_name(kind), p), case()),
         Ok((seqs, steps)) => {
+            report.count("iterators_abandoned_midway", abandoned);
             report.count("next_calls_interleaved", steps);
             report.note_distinct(schedule_hash);
             for (e, seq) in seqs.iter().enumerate() {
